@@ -83,3 +83,31 @@ pub fn run(args: &[i128]) -> Vec<i128> {
         }
     }
 }
+
+// Clones of ONE MultiProducerSequencer (the module documentation of producer/multi_producer.rs builds one producer per clone).
+// line: seqclone size nclones (clone count)*   each op: clones[clone].next(count) then publish of that range; answers start end cursor
+pub fn run_clones(args: &[i128]) -> Vec<i128> {
+    let args: Vec<i128> = args.to_vec();
+    let (tx, rx) = mpsc::channel();
+    std::thread::spawn(move || {
+        let r = std::panic::catch_unwind(|| {
+            let (size, nc) = (args[0] as usize, args[1] as usize);
+            let seq = MultiProducerSequencer::new(size, SpinLoopWaitStrategy::new());
+            let clones: Vec<_> = (0..nc).map(|_| seq.clone()).collect();
+            let cursor = seq.get_cursor();
+            let mut out = Vec::new();
+            for ch in args[2..].chunks(2) {
+                let c = &clones[ch[0] as usize];
+                let (s, e) = c.next(ch[1] as usize);
+                c.publish(s, e);
+                out.push(s as i128); out.push(e as i128); out.push(cursor.get() as i128);
+            }
+            out
+        });
+        let _ = tx.send(r.unwrap_or_else(|_| vec![-999]));
+    });
+    match rx.recv_timeout(Duration::from_millis(1500)) {
+        Ok(v) => v,
+        Err(_) => { BLOCKED.store(true, std::sync::atomic::Ordering::SeqCst); vec![-888] }
+    }
+}
